@@ -451,7 +451,8 @@ class ModelBasedSearcher(StochasticSearcher):
             super().get_state(),
             model_params=self.model_parameters(),
             state=encode_state(self.state_transformer.state),
-            skip_optimization=self.state_transformer.skip_optimization,
+            # Copy: The predicate can have a mutable state (e.g., a counter)
+            skip_optimization=copy.deepcopy(self.state_transformer.skip_optimization),
         )
         if self._restrict_configurations is not None:
             state["restrict_configurations"] = self._restrict_configurations.copy()
